@@ -459,9 +459,13 @@ class AuthorizationRequest(oauth2.AuthorizationRequest):
         All parameter values that are present both in the OAuth 2.0
         Authorization Request and in the OpenID Request Object MUST exactly
         match."""
-        # what a message holds as verified is what this verification established
-        clear_verified_claims(self)
         super(AuthorizationRequest, self).verify(**kwargs)
+
+        # What a message holds as verified is what this verification established. The parent has
+        # dealt with the request object.
+        for _claim in CLAIMS_WITH_VERIFIED:
+            if _claim != "request" and verified_claim_name(_claim) in self:
+                del self[verified_claim_name(_claim)]
 
         args = {}
         for arg in ["keyjar", "opponent_id", "sender", "alg", "encalg", "encenc"]:
@@ -477,6 +481,7 @@ class AuthorizationRequest(oauth2.AuthorizationRequest):
             if isinstance(self["request"], str):
                 # Try to decode the JWT, checks the signature
                 oidr = OpenIDRequest().from_jwt(str(self["request"]), **args)
+                oauth2.drop_verified_copies(oidr)
 
                 # check if something is change in the original message
                 for key, val in oidr.items():
